@@ -19,7 +19,7 @@ CHUNK = 4
 def bounds(tier):
     return {'wavelets': len(dwt.wavelets(tier)), 'modes': dwt.MODES,
             '1d_sizes': '2..min(2L+4,44)' if tier == 'quick' else '2..2L+4',
-            '2d_sizes': 'grid [2..8]^2 (L<=8) / regime cross' if tier == 'quick' else 'grid [2..14]^2 (L<=8) / crosses',
+            '2d_sizes': 'grid [2..8]^2 (L<=8) / regime cross' if tier == 'quick' else 'grid [2..14]^2 (L<=8), full cross (8<L<=12), regime-boundary cross (L>12)',
             'J': '1..closure+1, cap %d' % jcap(tier)}
 
 
